@@ -11,7 +11,11 @@ NOT_APPLICABLE = {
 PENDING_REASON = "check not built yet in this round (planned, see DESIGN.md section 8); not claimed until it exists"
 
 
-def check(pid, text, note, technique, design_ref, category="model_checking", thorough=True):
+MODULES = {}
+
+
+def check(pid, text, note, technique, design_ref, category="model_checking", thorough=True, modules=()):
+    MODULES[pid] = tuple(modules)
     CHECKS[pid] = dict(property_id=pid, quick_cmd=f"bin/check {pid} quick",
                        **({"thorough_cmd": f"bin/check {pid} thorough"} if thorough else {}),
                        evidence_file=f"evidence/{pid}.json", replay_cmd_template=f"bin/check {pid} --replay {{path}}",
@@ -28,7 +32,7 @@ check("C02",
       "bounded model (constants in the evidence); scope: one writable handle at a time, no mode-'w' re-creation, puts "
       "only inside sessions; trusted: TLC, the harness's struct parser of the UKV format",
       "TLA+ spec (KVMap/UKVFile/Backend) model-checked with TLC; spec->code replay of every transition",
-      "DESIGN.md 4/C02")
+      "DESIGN.md 4/C02", modules=("KVMap", "UKVFile", "MCUKVFile", "Backend", "MCBackend"))
 
 check("C03",
       "TLC exhausts UKVCrash (every crash offset of append sessions over records with lengths 0..3, recovery by r / a+put / "
@@ -41,7 +45,7 @@ check("C03",
       "the stream wrapper, the harness's struct parser (only used for the header length)",
       "TLA+ spec (UKVCrash) model-checked with TLC; batched TLC trace validation of real recovery executions on "
       "enumerated crash images (fault enumeration)",
-      "DESIGN.md 4/C03")
+      "DESIGN.md 4/C03", modules=("UKVCrash", "MCUKVCrash", "UKVCrashTrace"))
 
 check("C04",
       "TLC exhausts Sessions.tla (the reading()/writing() protocol step by step, 2 processes x 2 sessions x 2 puts with an "
@@ -58,4 +62,4 @@ check("C04",
       "in B are sampled, not exhaustive; bounded model constants in the evidence",
       "TLA+ specs (Sessions, SessionSeq, SessionsTrace) model-checked with TLC incl. liveness; spec->code replay with "
       "fault injection + lock probe; TLC trace validation of real multi-process executions",
-      "DESIGN.md 4/C04")
+      "DESIGN.md 4/C04", modules=("Sessions", "MCSessions", "SessionSeq", "MCSessionSeq", "SessionsTrace"))
